@@ -196,6 +196,7 @@ type c12Env struct {
 	ctx    context.Context
 	logOK  bool
 	nmTime atomic.Uint64
+	nAdded atomic.Int64
 	evals  atomic.Uint64
 	panics atomic.Int64
 }
@@ -272,6 +273,15 @@ func c12Setup(in *C12Input) *c12Env {
 		m.StateNames()
 	}
 	return env
+}
+
+// the state list after k successful SetSchema calls
+func c12CurNames(k int) am.S {
+	names := append(am.S{}, c12Names...)
+	for i := 0; i < k; i++ {
+		names = append(names, fmt.Sprintf("X%d", i))
+	}
+	return names
 }
 
 func c12St(r *Rng) string { return c12Names[r.Intn(4)] }
@@ -537,26 +547,32 @@ var c12Ops = map[string]c12Op{
 	"SemLogger.IsWhen":           func(e *c12Env, t *c12T) { e.m.SemLogger().IsWhen() },
 	// ---- export / schema
 	"Export": func(e *c12Env, t *c12T) { _, _, _ = e.m.Export() },
+	// (the three schema-level ops keep their own idea of the state list, so
+	// that they call nothing but the method under test)
 	"Import": func(e *c12Env, t *c12T) {
-		names := e.m.StateNames()
+		names := c12CurNames(int(e.nAdded.Load()))
 		tm := make(am.Time, len(names))
 		for i := range tm {
 			tm[i] = uint64(t.r.Intn(4))
 		}
-		_ = e.m.Import(&am.Serialized{ID: "c12", StateNames: append(am.S{}, names...), Time: tm})
+		_ = e.m.Import(&am.Serialized{ID: "c12", StateNames: names, Time: tm})
 	},
 	"VerifyStates": func(e *c12Env, t *c12T) {
-		_ = e.m.VerifyStates(append(am.S{}, e.m.StateNames()...))
+		_ = e.m.VerifyStates(c12CurNames(int(e.nAdded.Load())))
 	},
 	"SetSchema": func(e *c12Env, t *c12T) {
-		names := append(am.S{}, e.m.StateNames()...)
-		if len(names) >= 10 {
+		k := int(e.nAdded.Load())
+		if k >= 5 {
 			return
 		}
-		s := e.m.Schema()
-		n := fmt.Sprintf("X%d", len(names))
-		s[n] = am.State{}
-		_ = e.m.SetSchema(s, append(names, n))
+		s := c12Schema()
+		for i := 0; i <= k; i++ {
+			s[fmt.Sprintf("X%d", i)] = am.State{}
+		}
+		s[am.StateException] = am.State{Multi: true}
+		if err := e.m.SetSchema(s, c12CurNames(k+1)); err == nil {
+			e.nAdded.CompareAndSwap(int64(k), int64(k+1))
+		}
 	},
 	// ---- NetworkMachine
 	"NM.UpdateClock": func(e *c12Env, t *c12T) {
@@ -846,10 +862,14 @@ func (t *c12Table) attribute(frames []c12Frame, write bool) (fields map[int]bool
 		}
 		lhs := -1
 		for ident, id := range t.Idents[pkg] {
-			if regexp.MustCompile(`\.` + ident + `\b`).MatchString(src) {
+			pat := `\.` + ident + `\b`
+			if strings.Contains(ident, ".") { // receiver given: rr.Index
+				pat = `\b` + regexp.QuoteMeta(ident) + `\b`
+			}
+			if regexp.MustCompile(pat).MatchString(src) {
 				fields[id] = true
 			}
-			if write && regexp.MustCompile(`^\s*[\w.]*\.`+ident+`(\[[^\]]*\])?\s*(=[^=]|\+\+|--|[-+]=)`).MatchString(src) {
+			if write && regexp.MustCompile(`^\s*[\w.]*\.`+regexp.QuoteMeta(ident[strings.LastIndex(ident, ".")+1:])+`(\[[^\]]*\])?\s*(=[^=]|\+\+|--|[-+]=)`).MatchString(src) {
 				lhs = id
 			}
 		}
